@@ -1,7 +1,9 @@
 // C16 harness: etl cmath / complex / midpoint vs glibc libm (and libstdc++ <complex>, <numeric>).
 //
 // Bit patterns travel as decimal integers (binary64 patterns >= 2^63 as the negative two's-complement
-// value); a NaN result is printed as `nan` (payload and sign of a NaN result are not compared).
+// value); a NaN result is printed as `nan` (the payload of a NaN result is never compared), and as `nan+` / `nan-`
+// for the sign-bit operations fabs, abs and copysign (u, cu, uv, b, cb, bv): there the sign bit of a NaN is part of
+// the result (C17 7.12.7.2, 7.12.11.1: fabs clears, copysign copies the sign bit of every value, NaNs included).
 //
 //   u   t=32|64 f=<unary exact> x=<bits>            run-time path   -> result bits | integer | 0/1
 //   cu  t=..    f=..            x=<bits>            the same through a constexpr table (constant evaluation)
@@ -12,6 +14,8 @@
 //   s   t=..    f=lerp|midpoint|fma x= y= [z=]      `ok` when bit-identical to libstdc++/glibc, else the values
 //   a   t=..    f=<approximating> x= [y=]           `ok` when within the tolerance of libm, else the values
 //   ca  t=..    f=..            x= [y=]             the same through a constexpr table
+//   cs  t=..    f=lerp|midpoint|fma k=<row>         row k of the constexpr table CS, bit-identical to libstdc++/glibc
+//   al  t=64    f=<approximating> x= [y=]           the long double overload at run time on (long double)x, ulps of long double
 //   c   t=..    f=<complex fn>  re= im= [re2= im2=] `ok` when within tolerance of std::complex
 //
 // Output: `<etl result>\t<libm result>`; for a/ca/c: `ok\tok` or `ulp(<n>):etl=..:libm=..\tok`.
@@ -25,7 +29,9 @@
 #include <cmath>
 #include <complex>
 #include <cstdint>
+#include <cstdlib>
 #include <cstring>
+#include <limits>
 #include <numeric>
 #include <string>
 
@@ -41,14 +47,24 @@ static constexpr auto from_bits(bits_t<T> b) -> T { return __builtin_bit_cast(T,
 template <typename T>
 static constexpr auto to_bits(T x) -> bits_t<T> { return __builtin_bit_cast(bits_t<T>, x); }
 
+// sgn: the sign bit of a NaN result is observable (fabs, abs, copysign)
 template <typename T>
-static auto fb(T r) -> std::string
+static auto fb(T r, bool sgn = false) -> std::string
 {
-    if (r != r) return "nan";
+    if (r != r) {
+        if (!sgn) return "nan";
+        bits_t<T> const sign = bits_t<T>(1) << (sizeof(T) * 8 - 1);
+        return (to_bits(r) & sign) ? "nan-" : "nan+";
+    }
     return std::to_string(static_cast<unsigned long long>(to_bits(r)));
 }
 template <typename T>
-static auto fbu(bits_t<T> b) -> std::string { return fb(from_bits<T>(b)); }
+static auto fbu(bits_t<T> b, bool sgn = false) -> std::string { return fb(from_bits<T>(b), sgn); }
+static auto sign_op(char const* n) -> bool
+{
+    std::string_view s{n};
+    return s == "fabs" || s == "abs" || s == "copysign";
+}
 static auto fi(long long v) -> std::string { return std::to_string(v); }
 
 template <typename T>
@@ -121,9 +137,9 @@ static constexpr auto cv(R r) -> CV
     else return {static_cast<long long>(to_bits<T>(static_cast<T>(r))), 0};
 }
 template <typename T>
-static auto fcv(CV c) -> std::string
+static auto fcv(CV c, bool sgn = false) -> std::string
 {
-    if (c.kind == 0) return fbu<T>(static_cast<bits_t<T>>(static_cast<unsigned long long>(c.v)));
+    if (c.kind == 0) return fbu<T>(static_cast<bits_t<T>>(static_cast<unsigned long long>(c.v)), sgn);
     return fi(c.v);
 }
 
@@ -158,11 +174,11 @@ static constexpr auto make_btab(F f, P ok)
     X(isfinite)
 #define BINARY_EXACT(X) X(copysign) X(fmin) X(fmax) X(fdim) X(fmod) X(remainder) X(nextafter)
 
-template <typename R> static auto fr(R r) -> std::string
+template <typename R> static auto fr(R r, bool sgn = false) -> std::string
 {
     if constexpr (std::is_same_v<R, bool>) return r ? "1" : "0";
     else if constexpr (std::is_integral_v<R>) return fi(static_cast<long long>(r));
-    else return fb(r);
+    else return fb(r, sgn);
 }
 
 template <typename T>
@@ -170,7 +186,7 @@ static auto unary_rt(std::string const& f, T x, bool& known) -> std::string
 {
     known = true;
 #define X(NAME)                                                                                                        \
-    if (f == #NAME) return fr(etl::NAME(x)) + "\t" + fr(std::NAME(x));
+    if (f == #NAME) return fr(etl::NAME(x), sign_op(#NAME)) + "\t" + fr(std::NAME(x), sign_op(#NAME));
     UNARY_EXACT(X)
 #undef X
     known = false;
@@ -182,7 +198,7 @@ static auto binary_rt(std::string const& f, T x, T y, bool& known) -> std::strin
 {
     known = true;
 #define X(NAME)                                                                                                        \
-    if (f == #NAME) return fr(etl::NAME(x, y)) + "\t" + fr(std::NAME(x, y));
+    if (f == #NAME) return fr(etl::NAME(x, y), sign_op(#NAME)) + "\t" + fr(std::NAME(x, y), sign_op(#NAME));
     BINARY_EXACT(X)
 #undef X
     known = false;
@@ -211,31 +227,15 @@ template <typename T> struct CT {
         [](T x) { return etl::NAME(x); }, [](T x) { return cast_ok(#NAME, x); });
     UNARY_EXACT(X)
 #undef X
-    // x*y, x/y, x-y that overflow or are invalid are not constant expressions: keep finite, non-zero divisors
+    // every pair is a constant expression for every binary exact function (fmod / remainder since 67c4687 / f0dd916:
+    // no filter; a pair that is not a constant expression makes this harness fail to compile, which is a finding)
     static constexpr bool any(T, T) { return true; }
-    static constexpr bool sub_ok(T x, T y)
-    {
-        if (!(x == x) || !(y == y)) return true;
-        if (!fin(x) && !fin(y)) return (x > 0) != (y > 0); // inf - inf is not a constant expression
-        return true;
-    }
-    static constexpr bool div_ok(T x, T y)
-    {
-        // gcem::fmod evaluates x / y only for finite x and y
-        if (!fin(x) || !fin(y)) return true;
-        if (y == 0) return false;
-        T const big = std::numeric_limits<T>::max();
-        T const ax = x < 0 ? -x : x, ay = y < 0 ? -y : y;
-        if (ay < 1 && ax > big * ay) return false;                                  // quotient overflows
-        if (ax / ay >= T(9.2e18)) return false;                                     // trunc casts through long long
-        return true;
-    }
     static constexpr auto b_copysign  = make_btab<T, NS>([](T x, T y) { return etl::copysign(x, y); }, any);
     static constexpr auto b_fmin      = make_btab<T, NS>([](T x, T y) { return etl::fmin(x, y); }, any);
     static constexpr auto b_fmax      = make_btab<T, NS>([](T x, T y) { return etl::fmax(x, y); }, any);
     static constexpr auto b_fdim      = make_btab<T, NS>([](T x, T y) { return etl::fdim(x, y); }, any);
-    static constexpr auto b_fmod      = make_btab<T, NS>([](T x, T y) { return etl::fmod(x, y); }, div_ok);
-    static constexpr auto b_remainder = make_btab<T, NS>([](T x, T y) { return etl::remainder(x, y); }, div_ok);
+    static constexpr auto b_fmod      = make_btab<T, NS>([](T x, T y) { return etl::fmod(x, y); }, any);
+    static constexpr auto b_remainder = make_btab<T, NS>([](T x, T y) { return etl::remainder(x, y); }, any);
     static constexpr auto b_nextafter = make_btab<T, NS>([](T x, T y) { return etl::nextafter(x, y); }, any);
 };
 
@@ -247,8 +247,8 @@ static auto unary_ct(std::string const& f, bits_t<T> xb) -> std::string
         long k = ct_index<T>(xb, CT<T>::u_##NAME.size());                                                              \
         if (k < 0) return "bad-op";                                                                                    \
         CV c = CT<T>::u_##NAME[static_cast<std::size_t>(k)];                                                           \
-        if (c.kind == 3) return "*\t" + fr(std::NAME(from_bits<T>(xb)));                                        \
-        return fcv<T>(c) + "\t" + fr(std::NAME(from_bits<T>(xb)));                                                     \
+        if (c.kind == 3) return "*\t" + fr(std::NAME(from_bits<T>(xb)), sign_op(#NAME));                        \
+        return fcv<T>(c, sign_op(#NAME)) + "\t" + fr(std::NAME(from_bits<T>(xb)), sign_op(#NAME));                     \
     }
     UNARY_EXACT(X)
 #undef X
@@ -263,9 +263,9 @@ static auto binary_ct(std::string const& f, bits_t<T> xb, bits_t<T> yb) -> std::
 #define X(NAME)                                                                                                        \
     if (f == #NAME) {                                                                                                  \
         CV c = CT<T>::b_##NAME[idx];                                                                                   \
-        auto s = fr(std::NAME(from_bits<T>(xb), from_bits<T>(yb)));                                                    \
+        auto s = fr(std::NAME(from_bits<T>(xb), from_bits<T>(yb)), sign_op(#NAME));                                    \
         if (c.kind == 3) return "*\t" + s;                                                                      \
-        return fcv<T>(c) + "\t" + s;                                                                                   \
+        return fcv<T>(c, sign_op(#NAME)) + "\t" + s;                                                                   \
     }
     BINARY_EXACT(X)
 #undef X
@@ -273,7 +273,8 @@ static auto binary_ct(std::string const& f, bits_t<T> xb, bits_t<T> yb) -> std::
 }
 
 // ---------------------------------------------------------------------------------- approximating functions
-// tolerance: distance in units in the last place of the libm result, or an absolute error for results near 0
+// tolerance: distance in units in the last place of the libm result (a RELATIVE bound).  Only where libm's own result is
+// zero or subnormal (|s| < min normal: no relative error is defined there) an absolute error bound is accepted instead.
 template <typename T>
 static auto ulp_dist(T a, T b) -> double
 {
@@ -288,9 +289,13 @@ static auto ulp_dist(T a, T b) -> double
     return static_cast<double>(d < 0 ? -d : d);
 }
 struct Tol { double ulps; double abs32; double abs64; };
+// C16_MEASURE=1 (measuring aid for c16_tol.inc, never set by the check): every tolerance is 0, so each result that is
+// not bit-identical prints its distance
+static bool const g_measure = std::getenv("C16_MEASURE") != nullptr;
 template <typename T>
 static auto judge(T e, T s, Tol t) -> std::string
 {
+    if (g_measure) t = Tol{0, 0, 0};
     bool en = e != e, sn = s != s;
     if (sn || en) {
         if (sn && en) return "ok";
@@ -300,18 +305,22 @@ static auto judge(T e, T s, Tol t) -> std::string
         if (e == s) return "ok";
         return "special:etl=" + fb(e) + ":libm=" + fb(s);
     }
+    // the sign of a zero result is part of the result (C17 F.10: sin(-0) = -0, ...); ulp_dist(+0, -0) is 0
+    if (e == 0 && s == 0 && std::signbit(e) != std::signbit(s)) return "zero-sign:etl=" + fb(e) + ":libm=" + fb(s);
     double d = ulp_dist(e, s);
     if (d <= t.ulps) return "ok";
-    double ad = std::fabs(static_cast<double>(e) - static_cast<double>(s));
-    if (ad <= (sizeof(T) == 4 ? t.abs32 : t.abs64)) return "ok";
+    if (std::fabs(s) < std::numeric_limits<T>::min()) {
+        double ad = std::fabs(static_cast<double>(e) - static_cast<double>(s));
+        if (ad <= (sizeof(T) == 4 ? t.abs32 : t.abs64)) return "ok";
+    }
     char buf[64];
     std::snprintf(buf, sizeof buf, "ulp(%.0f)", d);
     return std::string(buf) + ":etl=" + fb(e) + ":libm=" + fb(s);
 }
 
 // Tolerances (measured on the clean tree, see checks/props/c16.py TOLERANCES): run-time paths that call the
-// libm builtin are bit-identical; the gcem series (sqrt, atan2, erf, gamma, log1p, inverse hyperbolics, and
-// every constant-evaluated call) are looser.
+// libm builtin are bit-identical (this is a check of the dispatch); gcem (beta at run time, every constant-evaluated
+// call except sqrt) and tetl's own hypot are looser.
 #include "c16_tol.inc"
 
 #define UNARY_APPROX(X)                                                                                                 \
@@ -344,78 +353,208 @@ static auto approx_rt(Line const& l, bool& known) -> std::string
     return "";
 }
 
-// constexpr tables of approximating functions: a short list of ordinary arguments
+// constexpr tables of approximating functions.  Inputs (the same list as CA_IN of checks/props/c16.py): ordinary
+// arguments, plus boundary / tiny / large / negative ones where gcem is known to misbehave.  `cexpr` is NOT a domain of
+// good behaviour: it excludes exactly the arguments for which GCC rejects gcem's evaluation (overflow or inf - inf inside
+// the series is not a constant expression, measured with one constexpr variable per row); those print `*`.  Every other
+// argument is judged, mathematical domain errors (sqrt(-1), log(-1), acos(2): NaN) included.
 template <typename T> struct CA {
     static constexpr T in[] = {T(0), T(0.1), T(0.25), T(0.5), T(0.75), T(1), T(1.5), T(2), T(3), T(10),
-        T(-0.1), T(-0.5), T(-1), T(-2), T(0.001), T(7.25), T(100)};
+        T(-0.1), T(-0.5), T(-1), T(-2), T(0.001), T(7.25), T(100),
+        T(-0.0), T(1e-30), T(-1e-30), T(1e-5), T(50), T(89), T(1e30), T(-100), T(-2.5), T(0.999),
+        std::numeric_limits<T>::max(), std::numeric_limits<T>::denorm_min()};
     static constexpr std::size_t N = sizeof(in) / sizeof(in[0]);
     template <typename F, typename P>
-    static constexpr auto mk(F f, P dom)
+    static constexpr auto mk(F f, P ok)
     {
         std::array<T, N> r{};
-        for (std::size_t k = 0; k < N; ++k) r[k] = dom(in[k]) ? f(in[k]) : T(0);
+        for (std::size_t k = 0; k < N; ++k) r[k] = ok(in[k]) ? f(in[k]) : T(0);
         return r;
     }
     static constexpr bool all(T) { return true; }
-    static constexpr bool pos(T x) { return x > 0; }
-    static constexpr bool nonneg(T x) { return x >= 0; }
-    static constexpr bool unit(T x) { return x >= -1 && x <= 1; }
-    static constexpr bool unit_open(T x) { return x > -1 && x < 1; }
-    static constexpr bool ge1(T x) { return x >= 1; }
-    static constexpr bool gtm1(T x) { return x > -1; }
-    static constexpr bool gam(T x) { return x > 0 && x < 30; }
-    static constexpr bool expd(T x) { return x < 50; }
-    static constexpr auto t_sqrt   = mk([](T x) { return etl::sqrt(x); }, nonneg);
-    static constexpr auto t_exp    = mk([](T x) { return etl::exp(x); }, expd);
-    static constexpr auto t_log    = mk([](T x) { return etl::log(x); }, pos);
-    static constexpr auto t_log2   = mk([](T x) { return etl::log2(x); }, pos);
-    static constexpr auto t_log10  = mk([](T x) { return etl::log10(x); }, pos);
-    static constexpr auto t_log1p  = mk([](T x) { return etl::log1p(x); }, gtm1);
-    static constexpr auto t_sin    = mk([](T x) { return etl::sin(x); }, all);
-    static constexpr auto t_cos    = mk([](T x) { return etl::cos(x); }, all);
-    static constexpr auto t_tan    = mk([](T x) { return etl::tan(x); }, all);
-    static constexpr auto t_asin   = mk([](T x) { return etl::asin(x); }, unit);
-    static constexpr auto t_acos   = mk([](T x) { return etl::acos(x); }, unit);
-    static constexpr auto t_atan   = mk([](T x) { return etl::atan(x); }, all);
-    static constexpr auto t_sinh   = mk([](T x) { return etl::sinh(x); }, expd);
-    static constexpr auto t_cosh   = mk([](T x) { return etl::cosh(x); }, expd);
-    static constexpr auto t_tanh   = mk([](T x) { return etl::tanh(x); }, all);
-    static constexpr auto t_asinh  = mk([](T x) { return etl::asinh(x); }, all);
-    static constexpr auto t_acosh  = mk([](T x) { return etl::acosh(x); }, ge1);
-    static constexpr auto t_atanh  = mk([](T x) { return etl::atanh(x); }, unit_open);
-    static constexpr bool erfd(T x) { return x > -6 && x < 6; }
-    static constexpr auto t_erf    = mk([](T x) { return etl::erf(x); }, erfd);
-    static constexpr auto t_tgamma = mk([](T x) { return etl::tgamma(x); }, gam);
-    static constexpr auto t_lgamma = mk([](T x) { return etl::lgamma(x); }, gam);
-    static constexpr bool dom(char const* n, T x)
+    static constexpr bool huge(T x) { return x >= T(1e30) || x <= T(-1e30); }
+    static constexpr bool nothuge(T x) { return !huge(x); }
+    static constexpr bool erfd(T x) { return x > T(-30) && x < T(30); }
+    static constexpr bool tgd(T x) { return x < T(200); }
+    static constexpr bool lgd(T x) { return x < std::numeric_limits<T>::max(); }
+    static constexpr bool cexpr(char const* n, T x)
     {
         std::string_view s{n};
-        if (s == "sqrt") return nonneg(x);
-        if (s == "exp" || s == "sinh" || s == "cosh") return expd(x);
-        if (s == "log" || s == "log2" || s == "log10") return pos(x);
-        if (s == "log1p") return gtm1(x);
-        if (s == "asin" || s == "acos") return unit(x);
-        if (s == "acosh") return ge1(x);
-        if (s == "atanh") return unit_open(x);
-        if (s == "tgamma" || s == "lgamma") return gam(x);
+        if (s == "exp" || s == "sinh" || s == "cosh" || s == "tanh" || s == "atan" || s == "asinh" || s == "acosh") return nothuge(x);
         if (s == "erf") return erfd(x);
+        if (s == "tgamma") return tgd(x);
+        if (s == "lgamma") return lgd(x);
         return true;
     }
+#define CAT(NAME) static constexpr auto t_##NAME = mk([](T x) { return etl::NAME(x); }, [](T x) { return cexpr(#NAME, x); });
+    CAT(sqrt) CAT(exp) CAT(log) CAT(log2) CAT(log10) CAT(log1p) CAT(sin) CAT(cos) CAT(tan) CAT(asin) CAT(acos) CAT(atan)
+    CAT(sinh) CAT(cosh) CAT(tanh) CAT(asinh) CAT(acosh) CAT(atanh) CAT(erf) CAT(tgamma) CAT(lgamma)
+#undef CAT
+
+    // two-argument functions in constant evaluation (pow, atan2: gcem; hypot: tetl's own code over the folded sqrt builtin)
+    struct P2 { T x, y; };
+    // pow(0, 0) is NOT a constant expression (gcem evaluates 0 * log(0) = 0 * -inf; C: 1) and atan2(1e30f, 1) neither
+    // (x * x overflows inside gcem's atan): such rows cannot be part of a constexpr table and are left out
+    static constexpr P2 in_pow[]   = {{T(2), T(3)}, {T(2), T(0.5)}, {T(10), T(-2)}, {T(0.5), T(2.5)}, {T(3), T(0)}, {T(1.5), T(7.25)},
+          {T(0.1), T(0.25)}, {T(1), T(1e30)}, {T(-2), T(3)}, {T(-2), T(2)}, {T(0), T(2)}};
+    static constexpr P2 in_atan2[] = {{T(1), T(1)}, {T(1), T(-1)}, {T(-1), T(-1)}, {T(-1), T(1)}, {T(0), T(1)}, {T(0), T(-1)},
+        {T(-0.0), T(-1)}, {T(-0.0), T(1)}, {T(3), T(4)}, {T(0.1), T(0.25)}, {T(1), T(0)}, {T(-1), T(0)}, {T(0), T(0)}};
+    // hypot: small and ordinary magnitudes only.  Large ones (1e30, max) are exercised at run time: with an unscaled
+    // x * x + y * y they would overflow, which is not a constant expression — this harness would stop compiling (exit 2)
+    // instead of reporting the wrong value (exit 1).
+    static constexpr P2 in_hypot[] = {{T(3), T(4)}, {T(-3), T(4)}, {T(1e-30), T(0)}, {T(1e-30), T(-1e-30)}, {T(0), T(0)},
+        {T(0.1), T(0.25)}, {T(-0.0), T(0)}, {std::numeric_limits<T>::denorm_min(), std::numeric_limits<T>::denorm_min()},
+        {std::numeric_limits<T>::min(), T(0)}, {std::numeric_limits<T>::infinity(), std::numeric_limits<T>::quiet_NaN()}};
+    template <std::size_t M, typename F>
+    static constexpr auto mk2(P2 const (&in)[M], F f)
+    {
+        std::array<T, M> r{};
+        for (std::size_t k = 0; k < M; ++k) r[k] = f(in[k].x, in[k].y);
+        return r;
+    }
+    static constexpr auto t2_pow   = mk2(in_pow, [](T x, T y) { return etl::pow(x, y); });
+    static constexpr auto t2_atan2 = mk2(in_atan2, [](T x, T y) { return etl::atan2(x, y); });
+    static constexpr auto t2_hypot = mk2(in_hypot, [](T x, T y) { return etl::hypot(x, y); });
+    template <std::size_t M>
+    static auto find2(P2 const (&in)[M], bits_t<T> xb, bits_t<T> yb) -> long
+    {
+        for (std::size_t i = 0; i < M; ++i)
+            if (to_bits(in[i].x) == xb && to_bits(in[i].y) == yb) return static_cast<long>(i);
+        return -1;
+    }
 };
+
+// Dense constexpr table for the exp family and the logarithms (gcem splits exp(x) = e^n * exp(r) with n = find_whole(x),
+// r = find_fraction(x): the two helpers must agree at the tie |r| = 0.5, so exact half-integers, integers and the
+// neighbours of k/2 and of multiples of ln 2 are the arguments that matter).  The list is generated by `dense_in` and
+// mirrored by checks/props/c16.py `dense_values` (same order is not needed: rows are found by bit pattern).
+template <typename T> struct CE {
+    static constexpr std::size_t N = 82 + 18 + 56 + 21;
+    static constexpr auto nxt(T x, int dir) -> T   // the neighbour of a positive finite x
+    {
+        auto b = __builtin_bit_cast(bits_t<T>, x);
+        return __builtin_bit_cast(T, static_cast<bits_t<T>>(dir > 0 ? b + 1 : b - 1));
+    }
+    static constexpr auto make() -> std::array<T, N>
+    {
+        std::array<T, N> r{};
+        std::size_t k = 0;
+        for (int n = 0; n <= 40; ++n) { r[k++] = T(n) + T(0.5); r[k++] = -(T(n) + T(0.5)); }                 // 82 half-integers
+        for (int n : {2, 3, 4, 5, 8, 16, 17, 32, 40}) { r[k++] = T(n); r[k++] = T(-n); }                      // 18 integers
+        for (int h : {4, 5, 6, 7, 8, 9, 16, 17, 40, 41, 80, 81, 33, 65}) {                                   // 56 neighbours of h/2
+            T const v = T(h) / T(2);
+            r[k++] = nxt(v, +1); r[k++] = nxt(v, -1); r[k++] = -nxt(v, +1); r[k++] = -nxt(v, -1);
+        }
+        for (int m : {1, 2, 3, 10, 50, 100, 127}) {                                                          // 21 neighbours of m * ln 2
+            T const v = T(m) * T(0.693147180559945309417232121458176568L);
+            r[k++] = v; r[k++] = nxt(v, +1); r[k++] = nxt(v, -1);
+        }
+        return r;
+    }
+    static constexpr auto in = make();
+    template <typename F>
+    static constexpr auto mk(F f)
+    {
+        std::array<T, N> r{};
+        for (std::size_t k = 0; k < N; ++k) r[k] = f(in[k]);
+        return r;
+    }
+    static constexpr auto t_exp   = mk([](T x) { return etl::exp(x); });
+    static constexpr auto t_sinh  = mk([](T x) { return etl::sinh(x); });
+    static constexpr auto t_cosh  = mk([](T x) { return etl::cosh(x); });
+    static constexpr auto t_tanh  = mk([](T x) { return etl::tanh(x); });
+    static constexpr auto t_log   = mk([](T x) { return etl::log(x); });
+    static constexpr auto t_log2  = mk([](T x) { return etl::log2(x); });
+    static constexpr auto t_log10 = mk([](T x) { return etl::log10(x); });
+    static constexpr auto t_log1p = mk([](T x) { return etl::log1p(x); });
+};
+
+template <typename T>
+static auto approx_ct_dense(std::string const& f, bits_t<T> xb, bool& found) -> std::string
+{
+    long k = -1;
+    for (std::size_t i = 0; i < CE<T>::N; ++i)
+        if (to_bits(CE<T>::in[i]) == xb) k = static_cast<long>(i);
+    found = k >= 0;
+    if (!found) return "";
+    T x = from_bits<T>(xb);
+    auto const i = static_cast<std::size_t>(k);
+#define CEX(NAME) if (f == #NAME) return judge<T>(CE<T>::t_##NAME[i], std::NAME(x), tol_ct(#NAME)) + "\tok";
+    CEX(exp) CEX(sinh) CEX(cosh) CEX(tanh) CEX(log) CEX(log2) CEX(log10) CEX(log1p)
+#undef CEX
+    found = false;
+    return "";
+}
+
+// ---------------------------------------------------------------------------------- long double at run time (observed only)
+// `al t=64 f=<name> x=<binary64 bits> [y=]`: etl::f((long double)x) against std::f((long double)x), distance in ulps of the
+// 64-bit significand of the x87 format.  The long double overloads of exp, log, log2, log10, sin, cos, tan, asin, acos, atan,
+// tanh, asinh, acosh, pow have no builtin branch: they run gcem at run time.
+static auto judge_l(long double e, long double s, Tol t) -> std::string
+{
+    auto show = [](long double v) { char b[64]; std::snprintf(b, sizeof b, "%.21Lg", v); return std::string(b); };
+    if (g_measure) t = Tol{0, 0, 0};
+    bool en = e != e, sn = s != s;
+    if (sn || en) return (sn && en) ? "ok" : "special:etl=" + show(e) + ":libm=" + show(s);
+    if (std::isinf(s) || std::isinf(e)) return e == s ? "ok" : "special:etl=" + show(e) + ":libm=" + show(s);
+    if (e == 0 && s == 0 && std::signbit(e) != std::signbit(s)) return "zero-sign:etl=" + show(e) + ":libm=" + show(s);
+    if (e == s) return "ok";
+    long double const ad = std::fabs(e - s);
+    if (std::fabs(s) < std::numeric_limits<long double>::min()) {
+        if (ad <= static_cast<long double>(t.abs64)) return "ok";
+        return "abs:etl=" + show(e) + ":libm=" + show(s);
+    }
+    long double const ulp = std::ldexp(1.0L, std::ilogb(s) - 63);
+    long double const d   = ad / ulp;
+    if (d <= static_cast<long double>(t.ulps)) return "ok";
+    char buf[64];
+    std::snprintf(buf, sizeof buf, "ulp(%.0Lf)", d);
+    return std::string(buf) + ":etl=" + show(e) + ":libm=" + show(s);
+}
+static auto approx_ld(Line const& l) -> std::string
+{
+    auto const& f = l.str("f");
+    long double const x = static_cast<long double>(from_bits<double>(arg_bits<double>(l, "x")));
+#define LX(NAME) if (f == #NAME) return judge_l(etl::NAME(x), std::NAME(x), tol_ld(#NAME)) + "\tok";
+    UNARY_APPROX(LX)
+#undef LX
+    if (!l.has("y")) return "bad-op";
+    long double const y = static_cast<long double>(from_bits<double>(arg_bits<double>(l, "y")));
+    if (f == "pow") return judge_l(etl::pow(x, y), std::pow(x, y), tol_ld("pow")) + "\tok";
+    if (f == "atan2") return judge_l(etl::atan2(x, y), std::atan2(x, y), tol_ld("atan2")) + "\tok";
+    if (f == "hypot") return judge_l(etl::hypot(x, y), std::hypot(x, y), tol_ld("hypot")) + "\tok";
+    return "bad-op";
+}
 
 template <typename T>
 static auto approx_ct(Line const& l) -> std::string
 {
     auto const& f = l.str("f");
     auto xb       = arg_bits<T>(l, "x");
-    long k        = -1;
+    if (l.has("y")) {
+        auto yb = arg_bits<T>(l, "y");
+        T x = from_bits<T>(xb), y = from_bits<T>(yb);
+        long k = -1;
+        if (f == "pow" && (k = CA<T>::find2(CA<T>::in_pow, xb, yb)) >= 0)
+            return judge<T>(CA<T>::t2_pow[static_cast<std::size_t>(k)], std::pow(x, y), tol_ct("pow")) + "\tok";
+        if (f == "atan2" && (k = CA<T>::find2(CA<T>::in_atan2, xb, yb)) >= 0)
+            return judge<T>(CA<T>::t2_atan2[static_cast<std::size_t>(k)], std::atan2(x, y), tol_ct("atan2")) + "\tok";
+        if (f == "hypot" && (k = CA<T>::find2(CA<T>::in_hypot, xb, yb)) >= 0)
+            return judge<T>(CA<T>::t2_hypot[static_cast<std::size_t>(k)], std::hypot(x, y), tol_ct("hypot")) + "\tok";
+        return "bad-op";
+    }
+    long k = -1;
     for (std::size_t i = 0; i < CA<T>::N; ++i)
         if (to_bits(CA<T>::in[i]) == xb) k = static_cast<long>(i);
-    if (k < 0) return "bad-op";
+    if (k < 0) {
+        bool found = false;
+        auto r     = approx_ct_dense<T>(f, xb, found);
+        return found ? r : "bad-op";
+    }
     T x = from_bits<T>(xb);
 #define X(NAME)                                                                                                        \
     if (f == #NAME) {                                                                                                  \
-        if (!CA<T>::dom(#NAME, x)) return "*\tok";                                                              \
+        if (!CA<T>::cexpr(#NAME, x)) return "*\tok";                                                            \
         return judge<T>(CA<T>::t_##NAME[static_cast<std::size_t>(k)], std::NAME(x), tol_ct(#NAME)) + "\tok";           \
     }
     UNARY_APPROX(X)
@@ -442,6 +581,43 @@ static auto special3(Line const& l) -> std::string
     return "bad-op";
 }
 
+// the same three functions in constant evaluation: rows of a constexpr table (`cs ... k=<row>`), bit-identical
+template <typename T> struct CS {
+    struct P3 { T x, y, z; };
+    static constexpr P3 in[] = {{T(1), T(2), T(0.5)}, {T(0.1), T(0.25), T(0.75)}, {T(-3), T(7.25), T(1)}, {T(-3), T(7.25), T(0)},
+        {T(2), T(2), T(1e30)}, {T(1e30), T(-1e-30), T(0.5)}, {T(1e-30), T(3), T(-2.5)}, {T(0.1), T(10), T(-1)},
+        {T(1.5), T(0.999), T(-1.4985)}, {T(0), T(-0.0), T(0)}, {std::numeric_limits<T>::max(), T(0.5), T(1)},
+        {std::numeric_limits<T>::denorm_min(), T(0.5), T(0)}, {T(1) + std::numeric_limits<T>::epsilon(), T(1) - std::numeric_limits<T>::epsilon(), T(-1)}};
+    static constexpr std::size_t N = sizeof(in) / sizeof(in[0]);
+    template <typename F>
+    static constexpr auto mk(F f)
+    {
+        std::array<T, N> r{};
+        for (std::size_t k = 0; k < N; ++k) r[k] = f(in[k].x, in[k].y, in[k].z);
+        return r;
+    }
+    static constexpr auto t_fma      = mk([](T x, T y, T z) { return etl::fma(x, y, z); });
+    static constexpr auto t_lerp     = mk([](T x, T y, T z) { return etl::lerp(x, y, z); });
+    static constexpr auto t_midpoint = mk([](T x, T y, T) { return etl::midpoint(x, y); });
+};
+template <typename T>
+static auto special3_ct(Line const& l) -> std::string
+{
+    auto const& f = l.str("f");
+    long long k   = l.i("k");
+    if (k < 0 || static_cast<std::size_t>(k) >= CS<T>::N) return "bad-op";
+    auto const i = static_cast<std::size_t>(k);
+    auto const p = CS<T>::in[i];
+    auto cmp = [](T e, T s) -> std::string {
+        if ((e != e && s != s) || to_bits(e) == to_bits(s)) return "ok\tok";
+        return "etl=" + fb(e) + ":std=" + fb(s) + "\tok";
+    };
+    if (f == "midpoint") return cmp(CS<T>::t_midpoint[i], std::midpoint(p.x, p.y));
+    if (f == "lerp") return cmp(CS<T>::t_lerp[i], std::lerp(p.x, p.y, p.z));
+    if (f == "fma") return cmp(CS<T>::t_fma[i], std::fma(p.x, p.y, p.z));
+    return "bad-op";
+}
+
 // ---------------------------------------------------------------------------------- complex
 template <typename T>
 static auto cjudge(etl::complex<T> e, std::complex<T> s, Tol t) -> std::string
@@ -455,7 +631,8 @@ static auto cjudge(etl::complex<T> e, std::complex<T> s, Tol t) -> std::string
         double ad  = std::fabs(static_cast<double>(a) - static_cast<double>(b));
         double eps = sizeof(T) == 4 ? 1.1920929e-7 : 2.220446049250313e-16;
         if (ad <= t.ulps * eps * static_cast<double>(m)) return true;
-        return ad <= (sizeof(T) == 4 ? t.abs32 : t.abs64);
+        // absolute bound: only where the modulus of the reference result is zero or subnormal
+        return m < std::numeric_limits<T>::min() && ad <= (sizeof(T) == 4 ? t.abs32 : t.abs64);
     };
     if (comp(e.real(), s.real()) && comp(e.imag(), s.imag())) return "ok";
     return "cplx:etl=(" + fb(e.real()) + "," + fb(e.imag()) + "):std=(" + fb(s.real()) + "," + fb(s.imag()) + ")";
@@ -469,7 +646,7 @@ static auto complex_op(Line const& l) -> std::string
     T im = from_bits<T>(arg_bits<T>(l, "im"));
     etl::complex<T> ez{re, im};
     std::complex<T> sz{re, im};
-    Tol t = tol_rt(("c" + f).c_str());
+    Tol t = tol_rt(("c:" + f).c_str());
     auto ok = [](std::string s) { return s + "\tok"; };
     if (f == "abs") return ok(judge<T>(etl::abs(ez), std::abs(sz), t));
     if (f == "arg") return ok(judge<T>(etl::arg(ez), std::arg(sz), t));
@@ -516,8 +693,8 @@ static auto step_t(Line const& l) -> std::string
             T x = from_bits<T>(static_cast<bits_t<T>>(static_cast<unsigned long long>(v)));                            \
             if (!first) { e += ","; s += ","; }                                                                        \
             first = false;                                                                                             \
-            e += fr(etl::NAME(x));                                                                                     \
-            s += fr(std::NAME(x));                                                                                     \
+            e += fr(etl::NAME(x), sign_op(#NAME));                                                                     \
+            s += fr(std::NAME(x), sign_op(#NAME));                                                                     \
         }                                                                                                              \
     }
         UNARY_EXACT(X)
@@ -552,6 +729,8 @@ static auto step_t(Line const& l) -> std::string
         return known ? r : "bad-op";
     }
     if (l.op == "ca") return approx_ct<T>(l);
+    if (l.op == "cs") return special3_ct<T>(l);
+    if (l.op == "al") return sizeof(T) == 8 ? approx_ld(l) : std::string("bad-op");
     if (l.op == "c") return complex_op<T>(l);
     return "bad-op";
 }
